@@ -90,6 +90,22 @@ class Ptr:
         self.lst, self.idx = lst, idx
 
 
+class CellPtr:
+    """HeapPrimitive::Lookup - a pointer to a variable cell (object field)"""
+    __slots__ = ("cell",)
+
+    def __init__(self, cell):
+        self.cell = cell
+
+
+class Obj:
+    """an object: class name + field / method cells; identity = python identity"""
+    __slots__ = ("cls", "vars")
+
+    def __init__(self, cls, vars):
+        self.cls, self.vars = cls, vars
+
+
 def is_sym(v):
     return isinstance(v, z3.ExprRef)
 
@@ -320,6 +336,8 @@ def equals(a, b):
     """Primitive::equals on the value kinds of the generated programs"""
     if a is NIL or b is NIL:
         return a is NIL and b is NIL
+    if isinstance(a, Obj) and isinstance(b, Obj):
+        return a is b
     if is_int(a) and is_int(b):
         if not is_sym(a) and not is_sym(b):
             return a == b
@@ -345,6 +363,10 @@ def freeze(v):
     """value -> comparable snapshot (lists by content at the time of printing)"""
     if isinstance(v, Ptr):
         return freeze(v.lst.items[v.idx])
+    if isinstance(v, CellPtr):
+        return freeze(v.cell.v)
+    if isinstance(v, Obj):
+        return ("fn", "<object %s>" % v.cls)
     if isinstance(v, ListRef):
         return ("list", tuple(freeze(x) for x in v.items))
     if isinstance(v, Fn):
